@@ -23,7 +23,8 @@ LEAF = ["raw", "raw", "file", "symlink", "dir", "cbor"]
 def rand_case(rng, maxn):
     n = rng.randint(2, maxn)
     c = dict(n=n, links=[], kind=[], ident=[], aliasOf=[0] * n, loc=[], fok=[], mode=rng.choice(["dag", "entity"]),
-             locality=rng.random() < 0.5, trk=rng.choice(["map", "map", "bloom", "cidset", "none"]), cap=0, roots=[], stop=0)
+             locality=rng.random() < 0.5, trk=rng.choice(["map", "map", "bloom", "cidset", "none"]), cap=0, roots=[], stop=0,
+             cached=rng.random() < 0.25)
     if rng.random() < 0.2:
         c["stop"] = rng.randint(1, 4)
     for i in range(1, n + 1):
@@ -86,6 +87,15 @@ def run(ctx):
     lost = [c for c in cases if json.dumps(c, sort_keys=True) not in keys]
     if lost:
         ctx.broken("generator produced no behaviour for %d sampled cases, e.g. %s" % (len(lost), json.dumps(lost[0])))
+    # as-built alternative (open deviation) of the configurations with a memoising fetcher, attached where it differs
+    alts = ctx.tlc_gen("ProvideWalk", "GenProvideWalk.tla", "GenProvideWalkAlt.cfg" if q else "GenProvideWalkAltT.cfg",
+                       timeout=3600, workers=4)
+    altmap = {json.dumps(a["cfg"], sort_keys=True): a for a in alts if a["dev"]}
+    for b in behs:
+        a = altmap.get(json.dumps(b["cfg"], sort_keys=True))
+        if a and a["events"] != b["events"]:
+            b["alt"] = dict(dev=a["dev"][0], events=a["events"])
+    ctx.log("G: %d behaviours, %d with an as-built alternative" % (len(behs), sum(1 for b in behs if "alt" in b)))
     if ctx.brokens:
         return
     binp = ctx.go_build("dag/walker", ["dag/walker/zz_verif_C13_test.go"])
